@@ -185,6 +185,48 @@ class RF:
         return RF(n, d)
 
 
+def _lex_leading(p, order):
+    best, bk = None, None
+    for mono, c in p.m.items():
+        d = dict(mono)
+        k = tuple(d.get(v, 0) for v in order)
+        if bk is None or k > bk:
+            best, bk = (mono, c), k
+    return best
+
+
+def rf_as_monomial(rf):
+    """if the rational function equals c * (monomial / monomial) return (c, num_monomial, den_monomial) (tuples of
+    (var, exp)), else None.  Candidate from the lex-leading terms, verified by exact polynomial multiplication."""
+    n, d = rf.n, rf.d
+    if n.is_zero() or d.is_zero():
+        return None
+    if len(n) == 1 and len(d) == 1:
+        (mn, cn), = n.m.items()
+        (md, cd), = d.m.items()
+        return cn / cd, mn, md
+    order = sorted(n.vars() | d.vars())
+    (mn, cn) = _lex_leading(n, order)
+    (md, cd) = _lex_leading(d, order)
+    coef = cn / cd
+    en, ed = dict(mn), dict(md)
+    num, den = {}, {}
+    for v in set(en) | set(ed):
+        e = en.get(v, 0) - ed.get(v, 0)
+        if e > 0:
+            num[v] = e
+        elif e < 0:
+            den[v] = -e
+    pn = Poly({tuple(sorted(num.items())): Fraction(1)})
+    pd = Poly({tuple(sorted(den.items())): Fraction(1)})
+    try:
+        if (n * pd - (d * pn).scale(coef)).is_zero():
+            return coef, tuple(sorted(num.items())), tuple(sorted(den.items()))
+    except TooBig:
+        return None
+    return None
+
+
 class Normaliser:
     """z3 term -> RF, with per-instance caches (terms are kept alive so z3 ids are not reused)."""
 
